@@ -404,6 +404,7 @@ func (p c18) scenario(r *core.Result, s c18scn, seed uint64) {
 	}
 	// parked raw clients at handshake stages (TCP / WS only)
 	var parked []func()
+	var preUpgrade []net.Conn
 	if s.Moment == "parked" {
 		for i, f := range flavours {
 			for stage := 0; stage < 3; stage++ {
@@ -422,6 +423,17 @@ func (p c18) scenario(r *core.Result, s c18scn, seed uint64) {
 						parked = append(parked, func() { conn.Close() })
 					}
 				case rig.WS:
+					if stage == 0 {
+						// connections the listener's HTTP server still owns: nothing sent yet / half a request
+						for _, first := range []string{"", "GET / HTTP/1.1\r\nHost: x\r\nUpgrade: websocket\r\n"} {
+							if conn, err := net.DialTimeout("tcp", sr.Addr(rig.WS).String(), 2*time.Second); err == nil {
+								if first != "" {
+									_, _ = conn.Write([]byte(first))
+								}
+								preUpgrade = append(preUpgrade, conn)
+							}
+						}
+					}
 					d := websocket.Dialer{Subprotocols: []string{"lime"}, HandshakeTimeout: 2 * time.Second}
 					if conn, _, err := d.Dial("ws://"+sr.Addr(rig.WS).String(), nil); err == nil {
 						if stage >= 1 {
@@ -522,6 +534,19 @@ func (p c18) scenario(r *core.Result, s c18scn, seed uint64) {
 				fail("listener-still-serving/ws", "a websocket connection dialled after Close was accepted")
 			}
 		}
+	}
+	// a connection that the WebSocket listener's HTTP server had accepted but not upgraded yet is served by a goroutine
+	// of that server for as long as it stays open: Close has to end it
+	for i, conn := range preUpgrade {
+		_ = conn.SetReadDeadline(time.Now().Add(5 * time.Second))
+		buf := make([]byte, 256)
+		_, err := conn.Read(buf)
+		if ne, ok := err.(net.Error); ok && ne.Timeout() {
+			fail("connection-left-open/ws", "a connection accepted by the WebSocket listener before Close (#%d, not upgraded yet) is still open and served 5 s after Close", i)
+		} else {
+			r.Count("pre_upgrade_connections_closed", 1)
+		}
+		_ = conn.Close()
 	}
 	for _, p := range parked {
 		p()
